@@ -166,7 +166,12 @@ def check_case(case, acc, base=None):
     if lib == 'crash':
         if status == 'hang':
             acc.count('hangs')
-        return      # hangs and foreign exceptions are C07's subject
+        if verdict == 'accept':
+            # what kind of failure it is belongs to C07; that a well-framed message was NOT accepted belongs here
+            acc.viol('c08.rejects_well_framed.crash', case, 'no result: %s' % (
+                'no termination' if status == 'hang' else repr(val)), 'accepted',
+                'well-framed message %s' % bad.hex()[:200])
+        return
     if lib == 'accept':
         if not isinstance(val, dict):
             return
